@@ -814,4 +814,12 @@ example : SenderOk (Ctx.ofCfg {}) (start { isServer := false }) :=
 example : MsgOk (Ctx.ofCfg {}) (start { isServer := false }) [0x48, 0x69] false none := by
   refine ⟨by simp [start], by simp, by simp, by simp [Ctx.ofCfg], by simp [Ctx.ofCfg], fun _ => by decide⟩
 
+/-- `stream_judged` on a concrete run (client, two frames "He" + "llo" of a text message): the judge in the server's role
+reads the octets written as exactly that one message, stays OPEN and consumes everything -/
+example : WsSpec.judge (Ctx.ofCfg {})
+    (wire (endMessage ([[0x48, 0x65], [0x6c, 0x6c, 0x6f]].foldl (fun s p => sendMessageFrame s p false)
+      (beginMessage (start { isServer := false }) false))))
+    = ([.message [0x48, 0x65, 0x6c, 0x6c, 0x6f] false false], .ok, 0) := by
+  decide
+
 end Abverif.Ws
